@@ -133,7 +133,7 @@ def whileBaseline : List (String × String × String × String) := [
   ("regex/unicode_subsets.py", "iterparse_unicode_data", "cp < maxunicode", "argued: cp strictly increases"),
   ("regex/unicode_subsets.py", "get_categories", "cpa_int is not None and cpa_int <= cp_int", "argued: consumes an iterator"),
   ("tdop.py", "iter", "True", "argued: explicit stack over a finite token tree; returns when the stack is empty"),
-  ("tdop.py", "advance_until", "True", "proved: untilLoop is structural on the pending matches (advance2_total)"),
+  ("tdop.py", "advance_until", "True", "proved: untilLoop is structural on the pending matches (advance_until_total)"),
   ("tdop.py", "expression", "rbp < self.next_token.lbp", "proved in part: every iteration calls advance(), which consumes a match or raises at (end) (advance_consumes); (end).lbp = 0"),
   ("tree_builders.py", "build_node_tree", "True", "argued: iterator stack over a finite element tree"),
   ("tree_builders.py", "build_lxml_node_tree", "True", "argued: iterator stack over a finite element tree"),
@@ -144,7 +144,8 @@ def whileBaseline : List (String × String × String × String) := [
   ("xpath2/_xpath2_functions.py", "select__one_or_more", "True", "argued: consumes a generator, StopIteration ends it"),
   ("xpath2/_xpath2_operators.py", "nud__quantified_expressions", "True", "argued: each iteration advances over `$var in expr`; breaks unless next token is ','; advance consumes (advance_consumes)"),
   ("xpath2/_xpath2_operators.py", "nud__for_expression", "True", "argued: as nud__quantified_expressions"),
-  ("xpath2/xpath2_parser.py", "advance", "comment_level", "proved: comment_loop_terminates / advance2_total"),
+  ("xpath2/xpath2_parser.py", "advance", "comment_level", "proved: comment_scan_terminates (raw-source scan: the offset grows by >= 2 per iteration inside the source)"),
+  ("xpath2/xpath2_parser.py", "advance", "self.next_token.symbol == '(:'", "proved: advance3_total (each iteration re-tokenizes after the comment: the end offset of next_match strictly grows; assumes finditer(source, p) yields matches after p)"),
   ("xpath30/_xpath30_functions.py", "nud", "self.parser.next_token.symbol != ')'", "argued: each iteration advances over a parameter; advance consumes or raises at (end)"),
   ("xpath30/_xpath30_functions.py", "nud", "True", "argued: as above, breaks unless next token is ','"),
   ("xpath30/_xpath30_functions.py", "evaluate__format_integer", "chr(cp - 1).isdigit()", "argued: cp decreases, at most 9 steps inside a digit block"),
